@@ -64,7 +64,7 @@ def _e2_plan(prop, tier):
             {"engine": "e2_history", "label": "hist", "n": 140 if q else 20000, "timeout": 600.0},
             {"engine": "e2_history", "label": "hist-faults", "n": 60 if q else 10000, "kwargs": {"faults": True}, "timeout": 600.0},
             {"engine": "e2_history", "label": "hist-generated", "n": 64 if q else 5000, "kwargs": {"generated": True}, "timeout": 600.0},
-            {"engine": "e2_history", "label": "blocks", "n": 36 if q else 360, "indexed": True, "kwargs": {"blocks": True}, "timeout": 900.0},
+            {"engine": "e2_history", "label": "blocks", "n": 44 if q else 440, "indexed": True, "kwargs": {"blocks": True}, "timeout": 900.0},
             {"engine": "e2_history", "label": "two-trees", "n": 32 if q else 3000, "kwargs": {"trees": True}, "timeout": 600.0},
             {"engine": "e2_history", "label": "disk", "n": 32 if q else 3000, "kwargs": {"disk": True}, "timeout": 600.0},
         ],
@@ -209,7 +209,7 @@ def _c03_plan(prop, tier):
             {"engine": "e3_pool", "label": "pool-base", "n": 30 if q else 2000, "kwargs": {"profile": "base", "schedules": 2}, "timeout": 900.0},
             {"engine": "e2_history", "label": "hist", "n": 80 if q else 8000, "timeout": 600.0},
             {"engine": "e2_history", "label": "hist-generated", "n": 48 if q else 4000, "kwargs": {"generated": True}, "timeout": 600.0},
-            {"engine": "e2_history", "label": "blocks", "n": 32 if q else 320, "indexed": True, "kwargs": {"blocks": True}, "timeout": 900.0},
+            {"engine": "e2_history", "label": "blocks", "n": 44 if q else 440, "indexed": True, "kwargs": {"blocks": True}, "timeout": 900.0},
             {"engine": "e5_optout", "label": "direct-backend", "n": 1200 if q else 60000, "kwargs": {"kind": "direct"}, "timeout": 300.0},
         ],
         "probes": ["fault.rollback_taken_poison", "guard.writes_checked", "fault.poison_replacement_direct_backend", "direct.replacement_only_calls_validity_checked", "fault.stage_fault_suppressed_by_guard", "O5.valid_in_checked", "guard.original_invalid_written"],
